@@ -552,7 +552,15 @@ def classify(case, impl, model):
     ops = tb_ops(case)
     for i, (x, y) in enumerate(zip(io, mo)):
         if x != y:
-            return "P", "op #%d %s: implementation %s, model (repaired) %s" % (i, ops[i] if i < len(ops) else "?", x, y)
+            txt = "op #%d %s: implementation %s, model (repaired) %s" % (i, ops[i] if i < len(ops) else "?", x, y)
+            if y == "INADMISSIBLE":
+                # which id a PADR gets is free; the model rejected the implementation's answer.  An id that is 0,
+                # in use or handed out twice violates the property; creating NOTHING although an id is free does not
+                ids = re.findall(r"\d+", x.split("/g")[0].split(":u")[0]) if x.split(":")[0] in ("pads", "conc", "ovl", "join") else []
+                if x == "none" or (ids and len(ids) == len(set(ids)) and "0" not in ids and x.split(":")[0] in ("conc", "ovl")):
+                    return "G", txt + " (no session although an id is free: outside the property, correspondence only)"
+                return "P", txt + " (the session-id handed out is 0, in use or reserved)"
+            return "P", txt
     return "P", "final session table differs: impl %r model %r" % (idump[:200], mdump[:200])
 
 
